@@ -52,8 +52,13 @@ ITEMS = list(BAD_KEYS) + list(BAD_VALS) + list(DOTTED)
 EMBED = ["direct", "in_dict", "in_list", "dict_list", "list_dict", "depth3", "sib_first", "sib_last"]
 
 DICT_ENTRIES = ["ctor", "setitem", "setitem_key", "setdefault", "setdefault_key", "update_map",
-                "update_pairs", "update_kw", "update_both", "update_key", "reset"]
-LIST_ENTRIES = ["ctor", "setitem", "setslice", "append", "extend", "insert", "iadd", "reset"]
+                "update_pairs", "update_kw", "update_both", "update_key", "reset",
+                # the argument is merged INTO an existing nested container (in-place update paths)
+                "update_merge_list", "update_merge_dict", "reset_merge_list", "reset_merge_dict"]
+LIST_ENTRIES = ["ctor", "setitem", "setslice", "append", "extend", "insert", "iadd", "reset",
+                "reset_merge_tail", "reset_merge_elem"]
+MERGE = {"update_merge_list", "update_merge_dict", "reset_merge_list", "reset_merge_dict",
+         "reset_merge_tail", "reset_merge_elem"}
 SINGLE = {"ctor", "setitem", "setitem_key", "setdefault", "setdefault_key", "append", "insert"}
 
 TARGETS = ["root", "nested_dict", "nested_list", "depth3"]
@@ -142,8 +147,35 @@ def walk_forbidden(ci, x, path="$"):
     return f"{path}: non-JSON value of type {type(x).__name__}"
 
 
+def _first(cur, kind):
+    items = cur.items() if isinstance(cur, dict) else enumerate(cur)
+    for k, v in items:
+        if isinstance(v, kind):
+            return k
+    return None
+
+
 def call_entry(ci, obj, res, entry, arg, badkey):
     """Perform the entry point on target ``obj``. arg = embedded invalid value."""
+    if entry in MERGE:
+        cur = obj()
+        if entry in ("update_merge_list", "reset_merge_list"):
+            k = _first(cur, list)
+            new = {**cur, k: cur[k] + ["fine", arg]} if entry.startswith("reset") else {k: cur[k] + ["fine", arg]}
+        elif entry in ("update_merge_dict", "reset_merge_dict"):
+            k = _first(cur, dict)
+            new = {**cur, k: {**cur[k], "zz": arg}} if entry.startswith("reset") else {k: {**cur[k], "zz": arg}}
+        elif entry == "reset_merge_tail":
+            new = list(cur) + ["fine", arg]
+        else:
+            k = _first(cur, dict)
+            new = list(cur)
+            new[k] = {**cur[k], "zz": arg}
+        if entry.startswith("update"):
+            obj.update(new)
+        else:
+            obj.reset(new)
+        return None
     if entry == "ctor":
         return res.make(ci, data=arg)
     if entry == "setitem":
@@ -195,6 +227,11 @@ def cases_for(ci):
                 for item in ITEMS:
                     if not is_forbidden(ci, item):
                         continue
+                    if entry in MERGE:
+                        cur = get_path(base_doc(ci.kind), target_path(ci.kind, target, want))
+                        need = list if entry.endswith(("_list", "_tail")) else dict
+                        if entry != "reset_merge_tail" and _first(cur, need) is None:
+                            continue
                     keyish = entry.endswith("_key")
                     if keyish and item in BAD_VALS:
                         continue
